@@ -219,8 +219,8 @@ def corr_exhaustive(ck: Ck) -> None:
             # second alphabet (backslash-carrying and non-ASCII segments): <= 3 segments, 4 in the thorough tier
             parts += [('alpha2', n, allf if (full or n <= 2) else some) for n in range(1, (4 if ck.thorough else 3) + 1)]
             jobs.append((prefix, kind, parts))
-    if ck.thorough:     # six segments for plain and alternating separators, relative and absolute
-        jobs += [(prefix, kind, [('alpha', 6, allf)]) for prefix in ('', '/') for kind in (0, 2)]
+    if ck.thorough:     # six segments: relative with plain separators, absolute with alternating separators
+        jobs += [(prefix, kind, [('alpha', 6, allf)]) for prefix, kind in (('', 0), ('/', 2))]
 
     # the implementation runs here (sequentially, under the pinned cwd); the coqc processes run in parallel below
     import time
